@@ -752,6 +752,23 @@ func genBrokerIso(seed int64, n int, tier string, w *bufio.Writer) {
 			case k < 78:
 				g.emit("close %d", a)
 				done++
+			case k < 86:
+				// the witness publishes (to the attacker's topics too) while the attacker is torn down
+				var pubs []byte
+				for j := 1 + r.Intn(6); j > 0; j-- {
+					q := r.Intn(2)
+					pl := g.smallPayload()
+					if r.Intn(6) == 0 {
+						pl = g.bytesN(2000 + r.Intn(12000))
+					}
+					pubs = append(pubs, wPub{qos: q, topic: g.topic(), id: g.pid(), payload: pl}.encode()...)
+				}
+				how := "close"
+				if r.Intn(2) == 0 {
+					how = hexOf(pick(r, [][]byte{{0xf0, 0x00}, {0x00, 0x00}, {0x30, 0x80, 0x80, 0x80, 0x80, 0x01}, {0x30, 0xff, 0xff, 0x7f}, {0x30, 0x02, 0x00, 0x09}, {0x82, 0x00}, {0xe0, 0x00}}))
+				}
+				g.emit("race %d %s 2 %s", a, how, hexOf(pubs))
+				done++
 			default:
 				done += g.witness()
 			}
